@@ -34,7 +34,7 @@ class C14(GProp):
     rule = ('seeded random captures text(w) / spanned(w) with w from the C06/C07 family including nullable ones (maybe, repeat 0.., '
             'empty, cond false, seq_count), nested in sequences so that tokens were consumed before the capture and follow after it, '
             'on random texts with filtered whitespace before, between and after the consumed tokens (incl. tabs, line breaks, '
-            'multi-byte tokens); the captured span / byte range is compared with [start of first consumed token, end of last] '
+            'multi-byte, wide and zero-display-width tokens as the first captured token); the captured span / byte range is compared with [start of first consumed token, end of last] '
             'computed from the python token list, or required to be empty when nothing was consumed; non-trivial = a capture whose '
             'wrapped parser consumed nothing, or consumed tokens separated by filtered tokens; distinct by case')
 
@@ -53,6 +53,14 @@ class C14(GProp):
             elif k == 4: g = ['both', ['one', 'A'], ['sub', cap]]
             else: g = ['repeat', 0, 3, ['both', ['one', 'Comma'], cap]]
             t = spangen.random_text(r, alpha, 12 if tier == 'quick' else 24)
+            if i % 5 == 4:
+                # the capture starts at a token made of zero-display-width characters (several bytes, no column), after consumed
+                # tokens and filtered tokens
+                u = r.choice([['one', 'U'], ['repeat', 1, 'inf', ['any', 'U', 'A']], ['both', ['one', 'U'], ['maybe', ['one', 'B']]], ['seq', 'U', 'A']])
+                cap = [r.choice(['text', 'spanned']), u]
+                g = r.choice([['both', ['one', 'A'], cap], ['both', ['seq', 'B', 'A'], ['both', cap, ['maybe', ['one', 'B']]]],
+                              ['both', ['one', 'A'], ['sub', cap]], ['repeat', 0, 3, ['both', ['one', 'Comma'], cap]]])
+                t = spangen.random_text(r, ['a', 'a', 'b', 'comma', 'sp', 'sp', 'TAB', 'LF', 'z3', 'z3', 'z2', 'e2', 'w3'], 10)
             n += 1
             out.append(parsegen.parse_case('c%d' % n, t, g, le=r.choice(['lf', 'crlf']), tab=1 + r.below(8), sink=r.below(2)))
         return out
